@@ -13,7 +13,7 @@
    on the primitives at all; only [no_forgery] remains, for the integrity theorem. *)
 From Coq Require Import List NArith Arith Bool Lia.
 From GmsmVerif Require Import Lib.Outcome Rec.RecordSpec Rec.RecordModel Rec.RecordProofs Rec.RecordRoundtrip
-  Rec.RecordIntegrity Rec.RecordFragment Rec.RecordExtras Rec.RecordProgress Rec.RecordDuplex Rec.RecordHS Rec.RecordSM4.
+  Rec.RecordIntegrity Rec.RecordFragment Rec.RecordExtras Rec.RecordProgress Rec.RecordDuplex Rec.RecordHS Rec.RecordReadChunks Rec.RecordSM4.
 Import ListNotations.
 Local Open Scope nat_scope.
 
@@ -554,3 +554,37 @@ Theorem C07_read_hands_out_rest :
     out = d /\ (c' = with_input c None \/ readRecord P fuel (with_input c None) = Ok c').
 Proof. intros P. exact (read_hands_out_rest P). Qed.
 Print Assumptions C07_read_hands_out_rest.
+
+(* Conn.Read is chunking-independent: for ANY list of caller buffer sizes (each >= 1) the bytes a sequence
+   of Read calls returns are a prefix of the bytes the connection delivers record by record (recv_all), and
+   they are all of them once the connection has reached the permanent error - Read, with its loop over empty
+   records and its look-ahead for a waiting alert, neither drops nor duplicates nor reorders a byte. *)
+Theorem C07_read_chunking_independent :
+  forall P fuel bufs c out err c' r tot cf,
+    Forall (fun L => 1 <= L) bufs -> i_input c = None ->
+    read_calls P fuel c bufs = Ok (out, err, c') -> recv_all P r fuel c = Ok (tot, cf) ->
+    is_prefix out tot /\ (hc_err (i_hc c') = true -> out = tot).
+Proof. intros P fuel. exact (read_calls_chunking P fuel). Qed.
+Print Assumptions C07_read_chunking_independent.
+
+(* hence the integrity statement at the level of the application's Read calls: whatever the attacker makes
+   of the stream and however the application sizes its buffers, what Read returns is a prefix of what the
+   sender wrote (same idealisation as C07_prefix_integrity, stated for the record-by-record run) *)
+Theorem C07_prefix_integrity_read :
+  forall P ver s0 items hc vers wire rounds fuel bufs out err c1 tot c',
+    (s0 + N.of_nat (length items) < 2 ^ 64)%N ->
+    Forall (fun it : item => length (snd it) <= maxPlaintext) items ->
+    hc_err hc = false -> hc_seq hc = be64 s0 -> protected hc ->
+    Forall (fun L => 1 <= L) bufs ->
+    read_calls P fuel (receiver0 hc vers wire) bufs = Ok (out, err, c1) ->
+    recv_all P rounds fuel (receiver0 hc vers wire) = Ok (tot, c') ->
+    no_forgery P (sender_log (is_aead hc) ver s0 items) c' ->
+    is_prefix out (app_bytes items).
+Proof.
+  intros P ver s0 items hc vers wire rounds fuel bufs out err c1 tot c' Hb Hsz He Hs Hp HF Hrd Hrv Hnf.
+  destruct (prefix_integrity_wire P ver s0 items hc vers wire rounds fuel tot c' Hb Hsz He Hs Hp Hrv Hnf)
+    as [k [_ [_ [[t2 Ht2] _]]]].
+  destruct (read_calls_chunking P fuel bufs (receiver0 hc vers wire) out err c1 rounds tot c' HF (eq_refl : i_input (receiver0 hc vers wire) = None) Hrd Hrv) as [[t1 Ht1] _].
+  exists (t1 ++ t2). rewrite Ht2, Ht1, app_assoc. reflexivity.
+Qed.
+Print Assumptions C07_prefix_integrity_read.
